@@ -23,7 +23,7 @@ SIGN = [('/splitfunc', 'New$1'), ('/wsync', '(*Context).CreateSignature$1'), ('/
         ('/pwr', 'ComputeHashInfo'), ('/pwr', 'ReadSignature')]
 
 prop('C04',
-     functions=SIGN + BLOCKVALIDATOR + HASHING,
+     functions=SIGN + BLOCKVALIDATOR + HASHING + [('/pwr', '(*ValidatorContext).Validate')],
      assumes=['A-MD5', 'A-IO: bufio.Scanner driven by the split function delivers the blocks of the content in order (token <= buffer size)',
               'A-PROTO', 'A-COMP', 'A-SIZE (well-formed container: sizes in range, unique paths)'],
      not_decided='that bufio.Scanner, the two io.Pipe readers of multiread and the (de)compressors deliver the same bytes to both producers; ReadSignature positional correspondence (see DESIGN)')
@@ -108,8 +108,39 @@ prop('C14',
               'A-IO (bufio.Writer passes the byte stream through in order and calls the processor again after a short write)', 'A-PROTO'],
      not_decided='the composition lemma "truncate(patch(old, overlay), finalPos) == new" over all write partitions is not stated as one machine-checked lemma: the check proves the per-emission preconditions it follows from (SKIP only where new == old at the read offset, FRESH exactly the new content at the read offset, window fully tiled, offsets advance with every emission, applier moves/writes exactly Len/Data); truncation in applyOverlays (bowl) is not under contract')
 
+WIRE_ALL = WIRE_READ + [('/wire', '(*countingReader).Read'), ('/wire', '(*countingReader).ReadByte'), ('/wire', 'NewReadContext$1'),
+                        ('/wire', '(*ReadContext).WantSave'), ('/wire', '(*ReadContext).PopCheckpoint'), ('/wire', '(*ReadContext).Resume'),
+                        ('/wire', '(*WriteContext).WriteMessage')]
+
+prop('C13',
+     functions=WIRE_ALL + [('/pwr', 'CompressWire')],
+     assumes=['A-SAVIOR (Source.Resume returns the offset it resumed at; DiscardByRead consumes n bytes; the source calls OnSave eventually)',
+              'A-COMP (compressors / decompressors and their checkpoints are outside /repo)', 'A-PROTO (Marshal/Unmarshal inverse; in-context contracts)',
+              'A-IO (binary.ReadUvarint / PutUvarint / io.ReadFull: in-context contracts, including the C10 proviso on declared lengths)'],
+     not_decided='compressors/decompressors and their checkpoint logic (savior, go-brotli, compress/gzip); gob serialisation of checkpoints; DecompressWire (external sources); that uvarint(len) ++ body read back yields the same message (A-PROTO)')
+
+VALIDATOR = [('/pwr', '(*ValidatorContext).Validate'), ('/pwr', '(*ValidatorContext).Validate$6'), ('/pwr', '(*ValidatorContext).validate$3'),
+             ('/pwr', '(*WoundsGuardian).Do'), ('/pwr', 'AggregateWounds$1'), ('/pwr', '(*ValidatingPool).GetWriter$2')]
+
+prop('C05',
+     functions=VALIDATOR + DRIP + BLOCKVALIDATOR + HASHING + [('/pwr', 'ComputeHashInfo')],
+     assumes=['A-MD5', 'A-FS: Lstat/Readlink errors are "does not exist", "not a directory" or environment faults (envFault); kind predicates of os.FileInfo',
+              'A-IO (io.Copy)', 'A-POOL', 'channel contents of the per-file wound stream: non-nil wounds with Start <= End (the producers\' send contracts)',
+              'Validate is verified in fail-fast mode (the other consumer set-ups call external code)'],
+     not_decided='that every differing offset lies inside a reported wound, as one lemma over drip + block validator + size wound (the pieces are proved: block verdict <=> hashes equal, wound range = signed block range, size deviation always wounded, aggregator never loses coverage); WoundsWriter / WoundsPrinter; the worker goroutine validate (only its doOne closure)')
+
+prop('C16',
+     functions=VALIDATOR,
+     assumes=['A-SCHED (goroutines, channel FIFO)', 'A-FS'],
+     not_decided='termination itself: absence of deadlock under all interleavings, more than 1024 wounds, consumer failing early (composing the local protocol facts -- re-arm the channel taken from, drain until closed, close only after the worker finished, offers in a select with cancelled -- into liveness needs a concurrency logic this family does not have); the worker sends exactly one value on errs (validate body not under contract)')
+
+prop('C06',
+     functions=VALIDATOR,
+     assumes=['A-FS', 'A-POOL', 'A-IO', 'A-SCHED'],
+     not_decided='the healer itself (ArchiveHealer.Do / processWound / heal / healOne and ctxcopy are not under contract yet); the interleaving of validator and healer on the same tree; that the zip holds the signed content; the resulting directory')
+
 # properties with a registered check
-CLAIMED = {'C18', 'C04', 'C09', 'C17', 'C11', 'C08', 'C01', 'C10', 'C12', 'C07', 'C14'}
+CLAIMED = {'C18', 'C04', 'C09', 'C17', 'C11', 'C08', 'C01', 'C10', 'C12', 'C07', 'C14', 'C13', 'C05', 'C16', 'C06'}
 # reasons for properties not claimed (kept current)
 NOT_APPLICABLE = {}
 LEVEL_TEXT = {
@@ -123,5 +154,9 @@ LEVEL_TEXT = {
  'C12': {'text': 'Proof of the function-level clauses: Apply reads the add run at OldOffset (seek first), adds byte-wise mod 256, writes the copy run and moves the offset by len(Add)+Seek, depending on nothing else (resume from a saved offset); lrufile never reuses a live slot, reads the chunk of the offset, never hands out bytes beyond the file and reports io.EOF only with a short read; the differ\'s partition/scan-block arithmetic never divides by zero, never sorts an empty partition, tiles the new buffer; every match has its add run before its copy run inside both buffers; Seek is the gap to the next add run.', 'design_ref': 'DESIGN.md §5 C12'},
  'C07': {'text': 'Proof of the clauses the optimizer\'s output correctness rests on: termination without crash of the differ for all partition settings (C12 arithmetic), bsdiff series consumed and skipped by their grammar in the patcher, old-file index validated before use. The optimizer\'s own functions are not under contract.', 'design_ref': 'DESIGN.md §5 C07'},
  'C14': {'text': 'Proof (unbounded in file sizes, window contents and write partition): every SKIP covers only bytes where the new content equals the old file at the current read offset, every FRESH is exactly the new content at the read offset, each window is fully tiled and the read offset advances by the window length with the reader kept aligned; the header is written exactly at overlay offset 0 so a resumed session continues the same stream; the end marker follows a flush; the applier moves by Len on SKIP, writes Data on FRESH and stops at the marker; a checkpoint reads its offsets after flush+sync and Resume repositions reader, stage file and overlay writer at exactly those offsets without truncating.', 'design_ref': 'DESIGN.md §5 C14, App. A.3'},
+ 'C13': {'text': 'Proof of wharf\'s side: a message is written as uvarint(len) then body with a large-enough varint buffer; ReadMessage consumes at least one byte, never more than the stream holds, regrows its buffer to at least the declared length, and resets the message before decoding on every path; the reader offset counts every delivered byte; the three-state save protocol (ask only from idle, keep the checkpoint given, pop exactly once with Offset = reader offset); Resume leaves reader and source at checkpoint.Offset (discarding the gap, rejecting a source that resumed later) and resets the save state; no compressor is involved exactly when the algorithm is NONE.', 'design_ref': 'DESIGN.md §5 C13'},
+ 'C05': {'text': 'Proof of the function-level clauses: kind checks do not follow symlinks; a missing / not-a-directory entry is a wound, never a plain error; every wound offered for a file names it and has 0 <= Start <= End; a byte count different from the signed size is always wounded (shorter or longer); the aggregator never loses coverage and flushes before closing; the fail-fast consumer returns nil only after a clean closed stream; block verdicts decide exactly hash equality over the signed block range.', 'design_ref': 'DESIGN.md §5 C05'},
+ 'C16': {'text': 'Proof of the safety half and of the local protocol obligations: nil from the fail-fast consumer only after the stream was closed without a wound (never on cancellation); an error from worker or consumer is returned; the result channel taken from is the one re-armed; the wound stream is closed only after the worker finished; the consumer goroutine sends one result and then drains until closed; wounds are offered in a select with cancelled.', 'design_ref': 'DESIGN.md §5 C16'},
+ 'C06': {'text': 'Proof of clause (i) only: in the directory, symlink and file passes a deviation (missing entry, parent not a directory, wrong kind, wrong size) leads to a wound, not to a returned error. The healer is not under contract.', 'design_ref': 'DESIGN.md §5 C06'},
  'C04': {'text': 'Proof of the function-level clauses: split function cases, one hash per scanned block plus the empty-file entry with correct index/short size, hash grouping by prefix sums of per-file hash counts (ComputeHashInfo, incl. error iff count differs), block validator verdicts; rolling/from-scratch weak hash equals the recursive specification.', 'design_ref': 'DESIGN.md §5 C04'},
 }
